@@ -96,6 +96,8 @@ type FrameDesc struct {
 type LimDesc struct {
 	CE      string `json:"ce"`
 	Decoded int    `json:"decoded"` // bytes of the payload before Content-Encoding
+	// /ingest: bytes the gzip layer of the pprof body itself inflates to (0: not such a case)
+	Inner int `json:"inner,omitempty"`
 }
 
 type Req struct {
@@ -316,8 +318,11 @@ func setup() *mux.Router {
 
 // ------------------------------------------------------------------ body builders
 
-func validPprof(r *rand.Rand) []byte {
-	fn := &pprofile.Function{ID: 1, Name: "main.work", SystemName: "main.work", Filename: "main.go"}
+func validPprof(r *rand.Rand) []byte { return paddedPprof(r, 0) }
+
+// a well-formed pprof profile (gzip-compressed protobuf) with a function name of pad bytes: inflates to about pad bytes
+func paddedPprof(r *rand.Rand, pad int) []byte {
+	fn := &pprofile.Function{ID: 1, Name: "main.work" + strings.Repeat("a", pad), SystemName: "main.work", Filename: "main.go"}
 	fn2 := &pprofile.Function{ID: 2, Name: "main.main", SystemName: "main.main", Filename: "main.go"}
 	l1 := &pprofile.Location{ID: 1, Line: []pprofile.Line{{Function: fn, Line: 10}}}
 	l2 := &pprofile.Location{ID: 2, Line: []pprofile.Line{{Function: fn2, Line: 20}}}
@@ -514,6 +519,10 @@ func (c *Case) body(r *rand.Rand) []byte {
 			return gz([]byte(`{"streams":[{"stream":{"app":"a"},"values":[["1700000000000000000","` + strings.Repeat("a", c.Req.BodyGen.Bytes) + `"]]}]}`))
 		case "gzip_fill":
 			return gz(bytes.Repeat([]byte{'a'}, c.Req.BodyGen.Bytes))
+		case "pprof_pad":
+			return paddedPprof(rand.New(rand.NewSource(1)), c.Req.BodyGen.Bytes)
+		case "pprof_nested":
+			return gz(paddedPprof(rand.New(rand.NewSource(1)), c.Req.BodyGen.Bytes))
 		case "frame":
 			return frameBody(c.F)
 		case "limit_payload":
@@ -751,6 +760,33 @@ var fillRoutes = []limitRoute{
 func genLimit(r *rand.Rand, id int) Case {
 	rt := limitRoutes[r.Intn(len(limitRoutes))]
 	L := decodedLimit
+	if k := r.Intn(20); k == 1 || k == 2 {
+		// /ingest, binary route: the pprof body is itself a gzip stream, inflated by the profile parser
+		c := Case{ID: id, Stream: "limit"}
+		c.Req.Path = "/ingest"
+		c.Req.Query = []KV{{"from", "1700000000"}, {"until", "1700000010"}, {"name", "app"}}
+		c.Req.Headers = []KV{{"Content-Type", "binary/octet-stream"}}
+		nested := false
+		if k == 1 {
+			pad := []int{L / 2, L - 8192, L + 4096, 2 * L, 4*L + 3, 16 * L}[r.Intn(6)]
+			c.Req.BodyGen = &BodyGen{Kind: "pprof_pad", Bytes: pad}
+			if nested = r.Intn(4) == 0; nested {
+				c.Req.BodyGen.Kind = "pprof_nested" // the profile gzip-compressed once more: refused ("compressed twice")
+			}
+			body := c.body(r)
+			c.L = &LimDesc{CE: "", Decoded: len(body), Inner: decodedLen("gzip", body, 64*L)}
+		} else {
+			n := (64 + r.Intn(200)) << 20
+			c.Req.BodyGen = &BodyGen{Kind: "gzip_fill", Bytes: n}
+			c.L = &LimDesc{CE: "", Decoded: n / 1000, Inner: n} // not a profile: refused whatever its size
+		}
+		rel := "within"
+		if c.L.Inner > L {
+			rel = "over"
+		}
+		c.Class = "limit/ingest-binary/pprof-gzip-layer/" + rel + map[bool]string{true: "/bomb", false: ""}[k == 2 || nested]
+		return c
+	}
 	if r.Intn(10) == 0 {
 		// a plain body far beyond the payload limit: the server must stop reading at the limit
 		ft := fillRoutes[r.Intn(len(fillRoutes))]
